@@ -332,6 +332,64 @@ func registerIOModels() {
 	}
 	libModels["strings.HasPrefix"] = &libModel{desc: "HasPrefix(s, p) <=> len(p) <= len(s) and s[:len(p)] == p", apply: hasFix(true)}
 	libModels["strings.HasSuffix"] = &libModel{desc: "HasSuffix(s, p) <=> len(p) <= len(s) and s[len(s)-len(p):] == p", apply: hasFix(false)}
+	// protoreflect: descriptors are opaque objects (identity = interface payload); fdIsList / fdIsMap /
+	// fdMsg are uninterpreted functions of that identity. A protoreflect.Value carries its kind in the
+	// uninterpreted valkind(v): 1 message, 2 list, 3 map.
+	fdID := func(v Val) string { return v.(VIface).Pay }
+	valKind := func(v Val) string { return app("valkind", flatten(v)...) }
+	libModels["(protoreflect.FieldDescriptor).IsList"] = &libModel{desc: "IsList() is the uninterpreted fdIsList(fd)",
+		apply: func(c *FnCtx, st *State, in ssa.Instruction, cc *ssa.CallCommon, args []Val) Val {
+			c.eng.needProto = true
+			return VBool{app("fdIsList", fdID(args[0]))}
+		}}
+	libModels["(protoreflect.FieldDescriptor).IsMap"] = &libModel{desc: "IsMap() is the uninterpreted fdIsMap(fd); a field is never both a list and a map",
+		apply: func(c *FnCtx, st *State, in ssa.Instruction, cc *ssa.CallCommon, args []Val) Val {
+			c.eng.needProto = true
+			return VBool{app("fdIsMap", fdID(args[0]))}
+		}}
+	libModels["(protoreflect.FieldDescriptor).Message"] = &libModel{desc: "Message() returns the message descriptor fdMsg(fd), nil when the field is not of message kind (list-of-message and map fields have one)",
+		apply: func(c *FnCtx, st *State, in ssa.Instruction, cc *ssa.CallCommon, args []Val) Val {
+			c.eng.needProto = true
+			m := app("fdMsg", fdID(args[0]))
+			return VIface{ite(eq(m, "0"), "0", "700001"), m}
+		}}
+	libModels["(protoreflect.Message).Mutable"] = &libModel{desc: "Mutable(fd) returns a value whose kind follows the field: list for fdIsList, map for fdIsMap, otherwise message (Mutable of a scalar field panics inside protobuf-go: fd must be composite)",
+		writes: []string{"G$pb."},
+		apply: func(c *FnCtx, st *State, in ssa.Instruction, cc *ssa.CallCommon, args []Val) Val {
+			c.eng.needProto = true
+			fd := fdID(args[1])
+			c.oblige(st, "pre", "protoreflect.Mutable:"+c.anchor(in), in.Pos(), or(app("fdIsList", fd), app("fdIsMap", fd), not(eq(app("fdMsg", fd), "0"))),
+				"Mutable needs a composite field (message, list or map)", nil)
+			v := c.freshVal(st, cc.Signature().Results().At(0).Type(), "pb.value")
+			c.assume(st, eq(valKind(v), ite(app("fdIsList", fd), "2", ite(app("fdIsMap", fd), "3", "1"))))
+			return v
+		}}
+	libModels["(protoreflect.Value).Message"] = &libModel{desc: "Value.Message() panics (type mismatch) unless the value holds a message",
+		apply: func(c *FnCtx, st *State, in ssa.Instruction, cc *ssa.CallCommon, args []Val) Val {
+			c.eng.needProto = true
+			c.oblige(st, "pre", "protoreflect.Value.Message:"+c.anchor(in), in.Pos(), eq(valKind(args[0]), "1"), "Value.Message needs a message value (not a list or map)", nil)
+			r := c.freshVal(st, cc.Signature().Results().At(0).Type(), "pb.msg").(VIface)
+			c.assume(st, lt("0", r.Typ))
+			return r
+		}}
+	libModels["(protoreflect.Value).List"] = &libModel{desc: "Value.List() panics unless the value holds a list",
+		apply: func(c *FnCtx, st *State, in ssa.Instruction, cc *ssa.CallCommon, args []Val) Val {
+			c.eng.needProto = true
+			c.oblige(st, "pre", "protoreflect.Value.List:"+c.anchor(in), in.Pos(), eq(valKind(args[0]), "2"), "Value.List needs a list value", nil)
+			r := c.freshVal(st, cc.Signature().Results().At(0).Type(), "pb.list").(VIface)
+			c.assume(st, lt("0", r.Typ))
+			return r
+		}}
+	libModels["rand.Intn"] = &libModel{
+		desc: "rand.Intn(n) requires n > 0 (it panics otherwise) and returns 0 <= r < n",
+		apply: func(c *FnCtx, st *State, in ssa.Instruction, cc *ssa.CallCommon, args []Val) Val {
+			n := args[0].(VInt).T
+			c.oblige(st, "pre", "rand.Intn:"+c.anchor(in), in.Pos(), lt("0", n), "rand.Intn needs a positive argument", nil)
+			r := c.declare("rand", sInt)
+			c.assume(st, and(le("0", r), lt(r, n)))
+			return VInt{r}
+		},
+	}
 	libModels["sort.Sort"] = &libModel{
 		desc:   "sort.Sort on a value of type variables: afterwards the slice is non-decreasing in variable.name (the order variables.Less defines) and every element is one of the old elements; other slices of that element type are untouched. Only this instantiation is modelled",
 		writes: []string{"E$P_variable"},
